@@ -31,6 +31,9 @@ PARTIAL = []
 
 SPECIALS = ['$', '#', '{', '}', '&', '_', '%', '^', '\\', '\\\\', '\\{', '}{', '{}', '$$', '%%', '~', '\\begin{x}', '\\end{document}',
             '\\verb|x|', 'a_b', 'x^2', '50%', '#1', '&amp;', '\\textbf{', '}}', '{{', '\\', '\\ ']
+# compatibility look-alikes of the LaTeX specials (fullwidth and small forms): NFKC folds them to the ASCII character, so an
+# output stage that normalises AFTER escaping turns them into active specials; on their own they are ordinary letters
+SPECIALS += ['＄', '＃', '％', '＆', '＿', '＾', '＼', '｛', '｝', '﹛', '﹜', '﹩', '﹪', '﹟', '﹠', '﹨', '100％', 'a＿b', '｝｛']
 WORDS = ['foo', 'bar', 'a', 'b c', 'é', '中', 'x.y', 'path/to', 'http://u.v/w']
 
 
